@@ -1335,7 +1335,10 @@ func fileLevelComments(cx *CheckCtx, cr *CaseRun, ri int, out string, headers, p
 					}
 				}
 			}
-			if squashWS(first) != "" && inDoc && !containsAny(pkgc, first) {
+			// (a header that is nothing but a comment marker — "//", "/* */" — has no text that
+			// could be found anywhere: an empty package-comment line `//` is not that header)
+			bare := strings.TrimSuffix(strings.TrimPrefix(strings.TrimPrefix(squashWS(first), "//"), "/*"), "*/")
+			if squashWS(first) != "" && bare != "" && inDoc && !containsAny(pkgc, first) {
 				shape := "header-in-package-doc"
 				if strings.Contains(strings.Join(headers, "\n"), "\f") {
 					// (a form feed in ANY of the header comments: they form one comment group)
